@@ -15,6 +15,7 @@
    hypothesis a <= b is needed (membership of x makes the interval non-empty).                     *)
 From Coq Require Import ZArith QArith List Bool.
 From LP Require Import Scalar ScalarProofs IntervalArith IntervalArithProofs.
+Import ListNotations.
 Local Open Scope Q_scope.
 
 (* ---- 1. rational intervals (rational_interval_add/sub/neg/mul/pow): inclusion + invariant, for every
@@ -122,7 +123,38 @@ Theorem C15_corner_products_up : forall (a1 b1 a2 b2 : eQ) (a1o b1o a2o b2o : bo
 Proof. exact corner_up. Qed.
 Print Assumptions C15_corner_products_up.
 
-(* ---- 4. value level: lp_interval_sgn and the interval form of a sign-condition test *)
+(* ---- 4. value level (lp_interval_add / mul / pow): end points are integers, dyadics, rationals of any mix, or
+        -inf / +inf (unbounded intervals); 0 * inf = 0 as in the code.  ALGEBRAIC end points are not modelled. *)
+Theorem C15_value_add_incl : forall I1 I2 x y, viwf I1 -> viwf I2 -> vin x I1 -> vin y I2 ->
+  vin (x + y) (vi_add I1 I2) /\ viwf (vi_add I1 I2).
+Proof. exact vi_add_correct. Qed.
+Print Assumptions C15_value_add_incl.
+Theorem C15_value_mul_incl : forall I1 I2 x y, viwf I1 -> viwf I2 -> vin x I1 -> vin y I2 ->
+  vin (x * y) (vi_mul I1 I2) /\ viwf (vi_mul I1 I2).
+Proof. exact vi_mul_correct. Qed.
+Print Assumptions C15_value_mul_incl.
+Theorem C15_value_pow_incl : forall I n x, viwf I -> vin x I ->
+  vin (x ^ Z.of_N n) (vi_pow I n) /\ viwf (vi_pow I n).
+Proof. exact vi_pow_correct. Qed.
+Print Assumptions C15_value_pow_incl.
+(* points with rational values: the result is a point and contains exactly the exact value *)
+Theorem C15_value_point_exact : forall I1 I2 n x y, viwf I1 -> viwf I2 -> ipt I1 = true -> ipt I2 = true ->
+  vin x I1 -> vin y I2 ->
+  (ipt (vi_add I1 I2) = true /\ forall z, vin z (vi_add I1 I2) <-> z == x + y) /\
+  (ipt (vi_mul I1 I2) = true /\ forall z, vin z (vi_mul I1 I2) <-> z == x * y) /\
+  (ipt (vi_pow I1 n) = true /\ forall z, vin z (vi_pow I1 n) <-> z == x ^ Z.of_N n).
+Proof. exact vi_point_exact. Qed.
+Print Assumptions C15_value_point_exact.
+
+(* ---- 5. coefficient_interval_value / lp_polynomial_interval_value: for EVERY polynomial (any number of
+        variables, any degree) and every point rho of the box m, the value of the polynomial at rho lies in
+        the computed interval *)
+Theorem C15_poly_incl : forall m rho c, (forall x, viwf (m x)) -> (forall x, vin (rho x) (m x)) ->
+  vin (ceval rho c) (coef_interval_value m c) /\ viwf (coef_interval_value m c).
+Proof. exact coef_interval_value_correct. Qed.
+Print Assumptions C15_poly_incl.
+
+(* ---- 6. value level: lp_interval_sgn and the interval form of a sign-condition test *)
 Theorem C15_value_sgn_sound : forall I x, viwf I -> vin x I ->
   ((0 < vi_sgn I)%Z -> 0 < x) /\ ((vi_sgn I < 0)%Z -> x < 0) /\ (vi_sgn I = 0%Z -> vin 0 I).
 Proof. exact vi_sgn_sound. Qed.
@@ -149,6 +181,18 @@ Example C15_nonvacuous_pow :
 Proof.
   cbn zeta. split; [repeat split; try (right; right; reflexivity); try (right; left; reflexivity); intros; discriminate|].
   split; [|split; reflexivity]. unfold din, Qin. cbn. split; [right; split; reflexivity|left; reflexivity].
+Qed.
+Example C15_nonvacuous_value :
+  let I1 := mkI VMinf (VRat (1, 2)%Z) true false false in            (* (-inf, 1/2] *)
+  let I2 := mkI (VInt 0) (VDy (mkDy 3 1)) false true false in        (* [0, 3/2) *)
+  viwf I1 /\ viwf I2 /\ vin (-3 # 1) I1 /\ vin (0 # 1) I2 /\
+  vi_mul I1 I2 = mkI VMinf (VRat (3, 4)%Z) true true false /\          (* (-inf, 3/4) *)
+  vi_pow I1 2 = mkI (VInt 0) VPinf false true false /\               (* [0, +inf) *)
+  coef_interval_value (fun _ => I2) (CRec 0 [CNum 1; CNum 0; CNum 2]) = mkI (VInt 1) (VDy (mkDy 11 1)) false true false.
+Proof.
+  cbn zeta. split; [split; [exact I|split; reflexivity]|]. split; [split; [exact I|right; left; reflexivity]|].
+  split; [unfold vin; cbn; split; [exact I|left; reflexivity]|]. split; [unfold vin; cbn; split; [right; split; reflexivity|left; reflexivity]|].
+  repeat split; reflexivity.
 Qed.
 Example C15_nonvacuous_sc :
   let I := mkI (VInt (-1)) (VInt 0) false true false in             (* [-1, 0) *)
